@@ -15,6 +15,7 @@ directive is that directive's payload):
   @@ ghost_entry               -- `let ghost x0 = x;` snapshots at function entry (S1'; ghost code, erased)
   @@ loop <k>                  -- invariant/ensures/decreases after the k-th loop header
   @@ loop_body <k>             -- proof text at entry of the k-th loop body (S2)
+  @@ loop_end <k>              -- proof text immediately before the closing brace of the k-th loop body (S2')
   @@ before_tail               -- proof text immediately before the tail expression (S3)
   @@ before_return <k>         -- proof text immediately before the k-th `return` (S3)
   @@ rewrite_header <from> => <to>   -- E5-style declared rewrite of the *signature only*
@@ -63,7 +64,7 @@ class Unit:
                 elif d == 'source':
                     self.source = arg
                     cur = None
-                elif d in ('text', 'open', 'close', 'const', 'const_bytes', 'const_eval', 'struct'):
+                elif d in ('text', 'open', 'close', 'const', 'const_bytes', 'const_eval', 'struct', 'include'):
                     cur = {'kind': d, 'arg': arg}
                     self.items.append(cur)
                     cur_fn = None
@@ -77,8 +78,8 @@ class Unit:
                     if d == 'assumed':
                         cur = {'kind': 'spec', 'arg': ''}
                         cur_fn['subs'].append(cur)
-                elif d in ('spec', 'entry', 'ghost_entry', 'loop', 'loop_body', 'before_tail', 'before_return',
-                           'rewrite_header', 'rewrite_body'):
+                elif d in ('spec', 'entry', 'ghost_entry', 'ghost_loop_body', 'loop', 'loop_body', 'loop_end', 'before_tail', 'before_return',
+                           'rewrite_header', 'rewrite_body', 'rewrite_body_re'):
                     if cur_fn is None:
                         raise ExtractError("%s: directive %s outside fn" % (self.path, d))
                     cur = {'kind': d, 'arg': arg}
@@ -142,6 +143,16 @@ def gen_fn(src, item, canary=False):
             raise ExtractError("anchor lost: body rewrite %r matches %d times in fn %s" % (a, body.count(a), item['name']))
         rewrites.append((a, b))
         dropped.append(('E7', '%s => %s' % (a, b)))
+    re_rewrites = []
+    for s_ in subs.get('rewrite_body_re', []):
+        # E7r: declared rewrite of ONE expression, given as a regular expression (whitespace-insensitive where
+        # the pattern says \\s*); it must match exactly once, otherwise the anchor is lost (exit 2)
+        a, b = [x.strip() for x in s_['arg'].split(' => ')]
+        n = len(re.findall(a, body, re.S))
+        if n != 1:
+            raise ExtractError("anchor lost: body rewrite /%s/ matches %d times in fn %s" % (a[:60], n, item['name']))
+        re_rewrites.append((a, b))
+        dropped.append(('E7r', '/%s/ => %s' % (a, b)))
     vis = item['opts'].get('vis', 'keep')
     if vis == 'pub' and not re.match(r'\s*pub\b', hdr):
         hdr = re.sub(r'^(\s*)', r'\1pub ', hdr, count=1)
@@ -164,6 +175,24 @@ def gen_fn(src, item, canary=False):
         kw, bo, bc = loops[k]
         ind = _indent_of(body, kw) + '    '
         ins.append((bo + 1, '\n' + ind + 'proof {\n' + s['payload'] + ind + '}', 'post'))
+    for s in subs.get('ghost_loop_body', []):
+        # S2'': ghost snapshots at entry of the k-th loop body (`let ghost x0 = x;` lines only)
+        k = int(s['arg'])
+        if k >= len(loops):
+            raise ExtractError("anchor lost: fn %s has %d loops, ghost snapshot wants loop %d" % (item['name'], len(loops), k))
+        for l in s['payload'].splitlines():
+            if l.strip() and not re.match(r'\s*let ghost \w+(: [\w<>]+)? = [^;]+;\s*$', l):
+                raise ExtractError('ghost_loop_body accepts only `let ghost <name> = <expr>;` lines, got %r' % l)
+        kw, bo, bc = loops[k]
+        ins.append((bo + 1, '\n' + s['payload'].rstrip('\n'), 'post'))
+    for s in subs.get('loop_end', []):
+        # S2': proof text immediately before the closing brace of the k-th loop body
+        k = int(s['arg'])
+        if k >= len(loops):
+            raise ExtractError("anchor lost: fn %s has %d loops, proof wants loop %d" % (item['name'], len(loops), k))
+        kw, bo, bc = loops[k]
+        ind = _indent_of(body, kw) + '    '
+        ins.append((bc, ind + 'proof {\n' + s['payload'] + ind + '}\n' + _indent_of(body, kw), 'pre'))
     for s in subs.get('entry', []):
         ins.append((0, '\n        proof {\n' + s['payload'] + '        }', 'post'))
     for s in subs.get('ghost_entry', []):
@@ -195,6 +224,8 @@ def gen_fn(src, item, canary=False):
         out = out[:pos] + txt + out[pos:]
     for a, b in rewrites:
         out = out.replace(a, b)
+    for a, b in re_rewrites:
+        out = re.sub(a, lambda m_: b, out, count=1, flags=re.S)
     spec = ''.join(s['payload'] for s in subs.get('spec', []))
     text = hdr + '\n' + spec + '    {' + out + '}\n'
     info = {'fn': item['name'], 'source_sha256': sha256(f.header + '{' + body0 + '}'),
@@ -313,6 +344,9 @@ def generate(unit_path, repo, canary=False):
         k = it['kind']
         if k == 'text':
             out.append(subst(it['payload']))
+        elif k == 'include':
+            # shared specification text (same directory as the unit), so two units cannot drift apart
+            out.append(subst(open(os.path.join(os.path.dirname(os.path.abspath(unit_path)), it['arg'].strip())).read()))
         elif k == 'struct':
             out.append(gen_struct(repo, src, it['arg']))
         elif k in ('const_bytes', 'const_eval'):
